@@ -9,6 +9,7 @@
 //  peakloc.real                     vertex of the parabola through the three samples around idx (cyclic neighbours)
 //  detector.present / .absent       PreambleDetector against the documented formula evaluated in long double
 //  detector.reset                   histories on one object: traffic, reset(), stream - the stream is handled as by a fresh detector
+//  detector.refscale                reference c*h, c in {1e-3, 0.1, sqrt 2, 10, 1e3}: same behaviour as with h (score is a normalised correlation)
 //  detector.gap                     traffic, 1 / 2 / 5 frames that are exactly zero in every sample, traffic (preamble absent / before / after the gap)
 //  detector.reject                  a call with a length that is not a multiple of frame_len() throws and leaves the object unchanged
 //
@@ -398,6 +399,61 @@ static void run_peakloc(Ctx& ctx, bool T) {
                                 ctx.fail("peakloc", fmt("%.17g", got), fmt("%.17Lg", want), P().kv("kind", "value"));
                             else
                                 ctx.worst("peakloc |got-vertex| / (1e-12 (1+|vertex|))", (double)(err / tol));
+                            // the vertex does not depend on the scale of the data: the same samples times 2^k (exact, nothing
+                            // under- or overflows: |values| <= 156) must give the bit-identical location
+                            for (int k : {-1000, -300, -60, -50, -40, 40, 300, 1000}) {
+                                arr_real xs(n);
+                                for (int i = 0; i < n; ++i) xs[i] = std::ldexp(x[i], k);
+                                const double gk = peakloc(xs, idx, cyc != 0);
+                                ctx.note("peakloc real: scaled-data evaluations");
+                                if (!biteq(gk, got))
+                                    ctx.fail("peakloc", fmt("data * 2^%d: %.17g", k, gk), fmt("%.17g as at unit scale (vertex %.17Lg)", got, want), P().kv("kind", "scale").kv("k", k));
+                            }
+                            GUARD_END("peakloc")
+                        }
+            }
+        }
+    }
+}
+
+// ---------------------------------------------------------------------------------------------- peakloc (complex): scale only
+// The statement defines the real overload (parabola vertex); the complex one (Jacobsen's estimator) is otherwise exercised
+// through gccphat, whose PHAT-normalised correlation does not scale with the data.  Here only its scale invariance is
+// checked directly: samples times 2^k must give the bit-identical location (k limited to +-300: the complex division squares
+// its operands).
+static void run_peakloc_cmplx(Ctx& ctx, bool T) {
+    const cmplx_t al[6] = {{1, 0}, {0, 1}, {-1, 0}, {1, 1}, {2, -1}, {0.5, 0.25}};
+    for (int n : (T ? std::vector<int>{3, 4, 5, 6, 8} : std::vector<int>{3, 5})) {
+        for (int idx = 0; idx < n; ++idx) {
+            for (int cyc = 0; cyc < 2; ++cyc) {
+                if (!cyc && (idx == 0 || idx == n - 1)) continue;
+                for (int a = 0; a < 6; ++a)
+                    for (int b = 0; b < 6; ++b)
+                        for (int c = 0; c < 6; ++c) {
+                            const cmplx_t yl = al[a], yk = al[b], yr = al[c];
+                            const double dre = 2 * yk.re - yl.re - yr.re, dim = 2 * yk.im - yl.im - yr.im;
+                            if (dre == 0 && dim == 0) continue;   // estimator undefined (data-independent skip)
+                            if (!ctx.take("peakloc.cmplx.scale", P().kv("n", n).kv("idx", idx).kv("cyclic", cyc).kv("l", a).kv("k", b).kv("r", c))) continue;
+                            GUARD_BEGIN
+                            arr_cmplx x(n);
+                            for (int i = 0; i < n; ++i) x[i] = cmplx_t{100.0 + 7 * i, -3.0 * i};
+                            x[(idx - 1 + n) % n] = yl;
+                            x[(idx + 1) % n] = yr;
+                            x[idx] = yk;
+                            const double got = peakloc(x, idx, cyc != 0);
+                            ctx.nontrivial();
+                            if (!std::isfinite(got)) {
+                                ctx.note("peakloc complex: non-finite at unit scale, not compared");
+                                continue;
+                            }
+                            for (int k : {-300, -60, -50, -40, 40, 300}) {
+                                arr_cmplx xs(n);
+                                for (int i = 0; i < n; ++i) xs[i] = cmplx_t{std::ldexp(x[i].re, k), std::ldexp(x[i].im, k)};
+                                const double gk = peakloc(xs, idx, cyc != 0);
+                                ctx.note("peakloc complex: scaled-data evaluations");
+                                if (!biteq(gk, got))
+                                    ctx.fail("peakloc", fmt("data * 2^%d: %.17g", k, gk), fmt("%.17g as at unit scale", got), P().kv("kind", "scale").kv("k", k));
+                            }
                             GUARD_END("peakloc")
                         }
             }
@@ -528,7 +584,7 @@ static void run_detector(Ctx& ctx, bool T) {
     const std::vector<double> thrs = T ? std::vector<double>{0.3, 0.4, 0.5, 0.6, 0.7, 0.8, 0.9, 0.95} : std::vector<double>{0.3, 0.5, 0.7, 0.9};
     const int NFR = 4;
     for (const Preamble& pr : pre) {
-        if (!ctx.wants("detector.present") && !ctx.wants("detector.absent") && !ctx.wants("detector.reset") && !ctx.wants("detector.reject") && !ctx.wants("detector.big") && !ctx.wants("detector.gap")) break;
+        if (!ctx.wants("detector.present") && !ctx.wants("detector.absent") && !ctx.wants("detector.reset") && !ctx.wants("detector.reject") && !ctx.wants("detector.big") && !ctx.wants("detector.gap") && !ctx.wants("detector.refscale")) break;
         const int nh = pr.h.size();
         int fl = 0;
         double rms_h = 0;
@@ -573,7 +629,7 @@ static void run_detector(Ctx& ctx, bool T) {
         // `history` (optional) is applied to the detector object before the stream: earlier traffic followed by reset()
         // it is invoked before every call c of the stream (c = 0: before the stream starts)
         using History = std::function<void(PreambleDetector&, int /*fpc*/, int /*call*/)>;
-        auto run_one = [&](const arr_cmplx& s, const DetRef& R, double thr, int fpc, int e, const char* site, const History& history = History()) {
+        auto run_one = [&](const arr_cmplx& s, const DetRef& R, double thr, int fpc, int e, const char* site, const History& history = History(), const arr_cmplx* href = nullptr) {
             // decide whether the documented statistic gives an unambiguous expectation
             bool near = false, other = false;
             const int NS = s.size(), nfr = NS / fl;
@@ -590,7 +646,7 @@ static void run_detector(Ctx& ctx, bool T) {
                 return;
             }
             ctx.note(fmt("detector config checked thr=%.2f (%s%s)", thr, e >= 0 ? "preamble present" : "no preamble", history ? ", with history" : ""));
-            PreambleDetector det(pr.h, thr);
+            PreambleDetector det(href ? *href : pr.h, thr);   // href: the same preamble scaled by a constant (detector.refscale)
             if (det.frame_len() != fl) {
                 ctx.fail(site, fmt("frame_len()=%d", det.frame_len()), fmt("%d as for the probe object", fl), P().kv("kind", "setup"));
                 return;
@@ -797,6 +853,70 @@ static void run_detector(Ctx& ctx, bool T) {
                 }
             }
         }
+        // ---- scale of the REFERENCE handed to the constructor: the score is a normalised correlation, so a detector built from
+        // c * h must behave like the one built from h for every c, whether the stream carries c * h or h itself (and must stay
+        // silent on a preamble-free stream).  Oracle: the documented statistic evaluated with the scaled reference and the
+        // library's rms() of it; offsets / extract / score (within 1e-9, in [0.95, 1]) as in detector.present.
+        {
+            const double cs[5] = {1e-3, 0.1, std::sqrt(2.0), 10.0, 1e3};
+            const char* CN[5] = {"1e-3", "0.1", "sqrt2", "10", "1e3"};
+            std::vector<int> roffs;
+            if (T) roffs = det_offsets(fl, nh, false);
+            else {
+                std::set<int> so;
+                for (int v : {0, nh / 2, nh - 1, fl - 1})
+                    if (v >= 0 && v < fl) so.insert(v);
+                roffs.assign(so.begin(), so.end());
+            }
+            const std::vector<double> rthr = {0.5, 0.9};
+            for (int ci = 0; ci < 5; ++ci) {
+                arr_cmplx hc(nh);
+                for (int j = 0; j < nh; ++j) hc[j] = cmplx_t{cs[ci] * pr.h[j].re, cs[ci] * pr.h[j].im};
+                double rms_c = 0;
+                bool rms_done = false;
+                auto rmsc = [&]() {
+                    if (!rms_done) rms_c = rms(hc), rms_done = true;
+                    return rms_c;
+                };
+                // stream kinds: 0 = carries the scaled preamble c*h, 1 = carries the unit-scale preamble h, 2 = no preamble
+                for (int kind = 0; kind < 3; ++kind) {
+                    for (int off : (kind == 2 ? std::vector<int>{0} : roffs)) {
+                        for (int embed = 0; embed < 2; ++embed) {
+                            if (kind == 2 && !embed) continue;   // an all-zero stream says nothing about the reference
+                            if (!ctx.take("detector.refscale", P().kv("preamble", pr.name).kv("c", CN[ci]).kv("stream", kind == 0 ? "scaled" : (kind == 1 ? "unit" : "none")).kv("off", off).kv("floor", embed)))
+                                continue;
+                            GUARD_BEGIN
+                            const int e = kind == 2 ? -1 : fl + off;
+                            const int start = e >= 0 ? e - nh + 1 : -1;
+                            const arr_cmplx& tx = kind == 0 ? hc : pr.h;
+                            const double lvl = (kind == 0 ? cs[ci] : 1.0) * (double)rms_true;   // rms of what is transmitted
+                            arr_cmplx s(N);
+                            const double gf = embed ? 0.01 * lvl / std::sqrt(2.0) : 0.0;
+                            for (int k = 0; k < N; ++k) {
+                                double re = embed ? gf * lcg_gauss(168, (uint64_t)k) : 0.0;
+                                double im = embed ? gf * lcg_gauss(169, (uint64_t)k) : 0.0;
+                                if (start >= 0 && k >= start && k < start + nh) {
+                                    re += tx[k - start].re;
+                                    im += tx[k - start].im;
+                                }
+                                s[k] = cmplx_t{re, im};
+                            }
+                            const double rc = rmsc();
+                            if (!(rc > 0) || !std::isfinite(rc)) {
+                                ctx.fail("rms", fmt("rms(c*h)=%g", rc), "positive finite", P().kv("kind", "setup"));
+                                continue;
+                            }
+                            DetRef R = det_reference(hc, s, rc);
+                            ctx.nontrivial();
+                            ctx.note(std::string("detector reference scaled by ") + CN[ci]);
+                            for (double thr : rthr)
+                                for (int fpc : {1, 2}) run_one(s, R, thr, fpc, e, "PreambleDetector.process", History(), &hc);
+                            GUARD_END("PreambleDetector.process")
+                        }
+                    }
+                }
+            }
+        }
         // ---- all-zero frames inside the traffic: [2 frames of traffic] [g frames that are EXACTLY zero in every sample] [2 frames of
         // traffic]; traffic = noise 40 dB (variant 0) or 20 dB (variant 1) below the preamble power.  The preamble is a = absent,
         // b1 / b2 = ending on the last sample / in the middle of the last frame before the gap, c = starting on the first sample
@@ -897,6 +1017,7 @@ int main(int argc, char** argv) {
     run_gccphat_frac(ctx, T);
 #endif
     run_peakloc(ctx, T);
+    run_peakloc_cmplx(ctx, T);
     run_detector(ctx, T);
     return ctx.finish();
 }
